@@ -1414,6 +1414,25 @@ theorem sim_clearWhiteout (p : Str) :
   refine SimM.bind_eq (VPath.sim_exists hwo.1) fun ex => ?_
   exact SimM.ite (fun _ => VPath.sim_removeFile hwo.1) (fun _ => SimM.pure rfl)
 
+/-- `clear_whiteout` of `create_dir` (fix of O11): related removals fail with the same kind, so
+both sides swallow `FileNotFound` together -/
+theorem sim_clearWhiteoutT (p : Str) :
+    SimM R PR (· = ·) (clearWhiteoutT l1 p) (clearWhiteoutT l2 p) := by
+  unfold clearWhiteoutT
+  refine SimM.bind (SimM.ret (sim_whiteoutPath hL hne p)) fun wo1 wo2 hwo => ?_
+  refine SimM.bind_eq (VPath.sim_exists hwo.1) fun ex => ?_
+  refine SimM.ite (fun _ => ?_) (fun _ => SimM.pure rfl)
+  intro w1 w2 hr
+  dsimp only
+  rcases e1 : wo1.removeFile w1 with ⟨r1, w1'⟩
+  rcases e2 : wo2.removeFile w2 with ⟨r2, w2'⟩
+  obtain ⟨hres, hr'⟩ := (VPath.sim_removeFile hwo.1).run hr e1 e2
+  cases hres with
+  | ok hq => exact ⟨.ok hq, hr'⟩
+  | panic => exact ⟨.panic, hr'⟩
+  | @err k p1 p2 hp =>
+    cases k <;> first | exact ⟨.ok rfl, hr'⟩ | exact ⟨.err hp, hr'⟩
+
 theorem sim_addWhiteout (hh : SimHandles R PR H) (p : Str) :
     SimM R PR (· = ·) (addWhiteout l1 p) (addWhiteout l2 p) := by
   unfold addWhiteout
@@ -1466,8 +1485,25 @@ theorem sim_createDir (p : Str) (hp : Canon p) (hpn : p ≠ []) :
   · refine SimM.bind (sim_readPath hL hne p) fun q1 q2 hq => ?_
     exact SimM.bind_eq (VPath.sim_metadata hq.1) fun md => SimM.failK _
   · refine SimM.bind (SimM.ret (sim_writePath_nonroot hL hne p hp hpn)) fun wp1 wp2 hwp => ?_
-    refine SimM.bind_eq (VPath.sim_createDir hwp.1.1 hwp.2) fun _ => ?_
-    exact sim_clearWhiteout hL hne p
+    -- related answers of the write layers select the same branch
+    intro w1 w2 hr
+    dsimp only
+    rcases e1 : wp1.createDir w1 with ⟨r1, w1'⟩
+    rcases e2 : wp2.createDir w2 with ⟨r2, w2'⟩
+    obtain ⟨hres, hr'⟩ := (VPath.sim_createDir hwp.1.1 hwp.2).run hr e1 e2
+    cases hres with
+    | @ok a b hq => cases a; cases b; exact sim_clearWhiteoutT hL hne p w1' w2' hr'
+    | panic => exact ⟨.panic, hr'⟩
+    | @err k p1 p2 hp =>
+      cases k <;> try exact ⟨.err hp, hr'⟩
+      dsimp only
+      rcases e3 : clearWhiteoutT l1 p w1' with ⟨r3, w1''⟩
+      rcases e4 : clearWhiteoutT l2 p w2' with ⟨r4, w2''⟩
+      obtain ⟨hres2, hr''⟩ := (sim_clearWhiteoutT hL hne p).run hr' e3 e4
+      cases hres2 with
+      | @ok a b hq => cases a; cases b; exact ⟨.err hp, hr''⟩
+      | panic => exact ⟨.panic, hr''⟩
+      | @err k2 p3 p4 hp2 => exact ⟨.err hp2, hr''⟩
 
 theorem sim_refuseDir (p : Str) : SimM R PR (· = ·) (refuseDir l1 p) (refuseDir l2 p) := by
   unfold refuseDir
